@@ -9,6 +9,7 @@ import (
 	"bytes"
 	"context"
 	"encoding/json"
+	"io"
 	"os"
 	"sync"
 	"time"
@@ -59,6 +60,7 @@ type Stim struct {
 	MaxR  int    `json:"maxr"`
 	AT    int    `json:"at"`
 	Steps []Act  `json:"steps"`
+	Post  bool   `json:"post"` // the request is a POST whose body reader the application has already read to its end (e.g. to hash it)
 }
 
 type Copy struct {
@@ -119,7 +121,7 @@ func runOne(st Stim) Trace {
 			first = raw
 			mid = d.MID
 		}
-		if d.Type == message.Confirmable && d.Code == int(codes.GET) && bytes.Equal(d.Token, tok) {
+		if d.Type == message.Confirmable && (d.Code == int(codes.GET) || d.Code == int(codes.POST)) && bytes.Equal(d.Token, tok) {
 			tr.Copies = append(tr.Copies, Copy{At: curTick, Same: bytes.Equal(raw, first), Con: d.MID == mid, After: curEv})
 		} else {
 			tr.Others++
@@ -196,6 +198,12 @@ func runOne(st Stim) Trace {
 	}
 	go func() {
 		req, err := u.cc.NewGetRequest(ctx, "/r")
+		if st.Post && err == nil {
+			u.cc.ReleaseMessage(req)
+			body := bytes.NewReader([]byte("the-payload-of-the-request-under-test"))
+			_, _ = io.Copy(io.Discard, body) // the application has looked at the body: the reader is at its end
+			req, err = u.cc.NewPostRequest(ctx, "/r", message.TextPlain, body)
+		}
 		if err != nil {
 			resCh <- result{}
 			return
